@@ -12,6 +12,7 @@ import suite_names
 import suite_table
 import suite_csv
 import suite_repr
+import suite_repo
 
 
 def c04(rep, tier, seed):
@@ -50,6 +51,7 @@ def c09(rep, tier, seed):
     cl = ("rows_inner", "operands_unchanged")
     suite_join.gen(rep, tier, '{"inner"}', '{"many_to_many"}', cl, hashseeds=seeds)
     suite_join.trace(rep, tier, seed, cl, kinds=("inner",), hashseed=seed % 1000)
+    suite_repo.validate(rep, {"join"}, cl)
 
 
 def c10(rep, tier, seed):
@@ -59,6 +61,7 @@ def c10(rep, tier, seed):
     cl = ("rows_left", "rows_full")
     suite_join.gen(rep, tier, '{"left","full"}', '{"many_to_many"}', cl, hashseeds=seeds)
     suite_join.trace(rep, tier, seed, cl, kinds=("left", "full"), hashseed=seed % 1000)
+    suite_repo.validate(rep, {"join"}, cl)
 
 
 def c11(rep, tier, seed):
@@ -67,6 +70,7 @@ def c11(rep, tier, seed):
     cl = ("cardinality", "errclass", "rows_inner", "rows_left", "rows_full")
     suite_join.gen(rep, tier, '{"inner","left","full"}', suite_join.ALL_EXPECTS, cl)
     suite_join.trace(rep, tier, seed, ("cardinality", "errclass"), hashseed=seed % 1000)
+    suite_repo.validate(rep, {"join"}, ("cardinality", "errclass"))
 
 
 REL_ASSUME = [
@@ -81,6 +85,7 @@ def c12(rep, tier, seed):
     seeds = (0, 1) if tier == "quick" else (0, 1, 2, 3, 5, 8)
     suite_group.gen(rep, tier, suite_group.C12_CLAUSES, hashseeds=seeds)
     suite_group.trace(rep, tier, seed, suite_group.C12_CLAUSES, ops=("aggregate", "reduce"))
+    suite_repo.validate(rep, {"group"}, suite_group.C12_CLAUSES)
 
 
 def c13(rep, tier, seed):
@@ -88,6 +93,7 @@ def c13(rep, tier, seed):
     suite_group.mc(rep, tier)
     suite_group.gen(rep, tier, suite_group.C13_CLAUSES)
     suite_group.trace(rep, tier, seed, suite_group.C13_CLAUSES, ops=("window",))
+    suite_repo.validate(rep, {"group"}, suite_group.C13_CLAUSES)
 
 
 def c14(rep, tier, seed):
@@ -95,6 +101,7 @@ def c14(rep, tier, seed):
     suite_sort.mc(rep, tier)
     suite_sort.gen(rep, tier)
     suite_sort.trace(rep, tier, seed)
+    suite_repo.validate(rep, {"sort"}, suite_sort.CLAUSES + ("sort_rows",))
 
 
 HEAP_ASSUME = [
@@ -250,6 +257,7 @@ def c03(rep, tier, seed):
             seen.add(k)
             evs.append(e)
     suite_types.validate(rep, evs, "c03.monitor", ("dtype_truthful", "unknown_kind"))
+    suite_repo.validate(rep, {"truth"}, ("dtype_truthful",))
     rep.extra["vectors_classes_inspected"] = len(evs)
     for w in mon["writeback"]:
         rep.fail("writeback", "c03.monitor", {"origin": w["origin"], "values": w["values"], "dtype": w.get("dtype")},
